@@ -543,7 +543,88 @@ def explore_shared(cfg):
     return C.rec
 
 
+# ------------------------------------------------------------------------------------------------
+# a property DERIVED (.getter / .setter / .deleter) from one that has already been used
+# ------------------------------------------------------------------------------------------------
+DERIVE_PRE = ["read_base", "override_base", "none"]
+DERIVE_VIA = ["getter", "setter", "deleter"]
+
+
+def derived_case(cfg, pre, via):
+    """-> problems.  Base.p (classproperty or spec_property) is used (pre), THEN a second class gets its own property derived
+    from Base's descriptor.  The two properties are two properties: nothing stored for one may show through the other."""
+    from spec_classes import classproperty, spec_property
+
+    kind = cfg["kind"]
+    mk = classproperty if kind == "classproperty" else spec_property
+    kwargs = {"overridable": True, "cache": cfg["cache"]}
+    if kind == "classproperty":
+        base_prop = mk(lambda cls: "base-value", **kwargs)
+    else:
+        base_prop = mk(lambda self: "base-value", **kwargs)
+    Base = type("Base", (), {"p": base_prop})
+    b = Base()
+    probs = []
+    if pre == "read_base":
+        (Base.p if kind == "classproperty" else b.p)
+    elif pre == "override_base":
+        b.p = "base-override"
+    d = Base.__dict__["p"]
+    if via == "getter":
+        new = d.getter((lambda cls: "derived-value") if kind == "classproperty" else (lambda self: "derived-value"))
+        want_derived = "derived-value"
+    elif via == "setter":
+        new = d.setter(lambda obj, v: None)
+        want_derived = "base-value"
+    else:
+        new = d.deleter(lambda obj: None)
+        want_derived = "base-value"
+    Other = type("Other", (), {"p": new})
+    o = Other()
+    got = Other.p if kind == "classproperty" else o.p
+    if got != want_derived:
+        probs.append(f"derived property read {got!r}, expected {want_derived!r} (what was stored for the property it was derived from shows through)")
+    want_base = "base-override" if pre == "override_base" else "base-value"
+    gb = Base.p if kind == "classproperty" else b.p
+    if gb != want_base:
+        probs.append(f"base property read {gb!r}, expected {want_base!r}")
+    if via == "getter":
+        # an override of the derived property must not reach the base property
+        try:
+            o.p = "derived-override"
+            gb2 = Base.p if kind == "classproperty" else b.p
+            if gb2 != want_base:
+                probs.append(f"override of the derived property changed the base property to {gb2!r}")
+        except AttributeError:
+            probs.append("derived property lost overridable=True")
+    return probs
+
+
+def derived_worker(task):
+    C = Counter()
+    for kind, cache, pre, via in itertools.product(("classproperty", "spec_property"), (False, True), DERIVE_PRE, DERIVE_VIA):
+        cfg = {"kind": kind, "cache": cache}
+        probs = derived_case(cfg, pre, via)
+        C.inc("states")
+        C.inc("transitions", 4)
+        C.inc("evaluations")
+        case = {"kind": "derived", "cfg": cfg, "pre": pre, "via": via}
+        if probs:
+            C.viol(violation(PROP, {"target": "derived_property", "of": kind, "cache": cache, "pre": pre, "via": via, "kind": "derived_property_shares_state"},
+                             {"problems": probs[:3]}, case))
+        else:
+            C.inc("traces_validated_against_impl")
+            C.nontrivial(("derived", kind, cache, pre, via))
+    C.sample({"target": "derived_property", "pre": DERIVE_PRE, "via": DERIVE_VIA})
+    return C.rec
+
+
 def run_case(case):
+    if case.get("kind") == "derived":
+        cfg = case["cfg"]
+        probs = derived_case(cfg, case["pre"], case["via"])
+        return [violation(PROP, {"target": "derived_property", "of": cfg["kind"], "cache": cfg["cache"], "pre": case["pre"], "via": case["via"],
+                                 "kind": "derived_property_shares_state"}, {"problems": probs[:3]}, case)] if probs else []
     if case.get("kind") == "shared":
         out = []
         shared_case(case["cfg"], tuple(case["order"]), out)
@@ -557,6 +638,8 @@ def run_case(case):
 
 
 def work(item):
+    if item["kind"] == "derived":
+        return derived_worker(item)
     if item["kind"] == "shared":
         return explore_shared(item["cfg"])
     if item["kind"] == "spec_property":
@@ -575,6 +658,7 @@ def main(run):
         items.append({"kind": "classproperty",
                       "cfg": {"cache": ca, "per_subclass": ps, "overridable": ov, "fset": fs, "fdel": fd,
                               "state_cap": 20000}})
+    items.append({"kind": "derived"})
     for fam, ca in itertools.product(("reannotate", "repreparer", "mixin"), (False, True)):
         items.append({"kind": "shared", "cfg": {"family": fam, "cache": ca}})
     for rec in pmap(work, items):
